@@ -109,6 +109,9 @@ Print Assumptions C08_createDataFrame_empty_column_name_refuted.
 Theorem C08_createDataArray_rank33_refuted : leaves_trace before_c08b (OCreate (Some 0) KArray "a2" "t" (XArray DDouble (repeat 1%Z 33))).
 Proof. exact refuted_array_rank33. Qed.
 Print Assumptions C08_createDataArray_rank33_refuted.
+Theorem C08_createDataArray_from_data_refuted : leaves_trace before_c08b (OCreate (Some 0) KArray "a2" "t" (XArrayT DDouble 3%Z DString)).
+Proof. exact refuted_create_typed. Qed.
+Print Assumptions C08_createDataArray_from_data_refuted.
 (** repaired in /repo since (491c620, 2f44815); shown on the model of the old code *)
 Theorem C08_values_mixed_types_refuted : leaves_trace old_props (OSetValues 9 [DInt64; DInt64; DString]).
 Proof. exact refuted_values. Qed.
@@ -129,7 +132,7 @@ Print Assumptions C08_createProperty_unholdable_type_refuted.
 Definition c08_switches (b : behaviour) : list bool :=
   [b_df_checks b; b_df_cols_check b; b_mtag_pos_first b; b_array_checks_first b; b_meta_lookup_first b;
    b_link_lookup_first b; b_ext_check_first b; b_values_check_first b; b_prop_type_check b; b_prop_values_uniform b;
-   b_replace_all_atomic b; b_setdata_type_first b; b_append_type_first b; b_df_colname_check b; b_array_rank_max b].
+   b_replace_all_atomic b; b_setdata_type_first b; b_append_type_first b; b_df_colname_check b; b_array_rank_max b; b_create_typed_first b].
 
 (** the hand copy of [util::looksLikeUUID] in the model is the definition the translator regenerates from
     src/util/util.cpp on every run *)
